@@ -81,8 +81,25 @@ var msgs = []interface{}{
 	[]interface{}{float64(1)},
 }
 
+// hostile: messages with strings that look like pattern variables (a message is whatever a client sends).  Only the kinds
+// of C07 (totality) use them: the rule checks of C01-C04 do not range over such strings.
+var hostile = []interface{}{
+	map[string]interface{}{"k": "?x", "j": float64(1)},
+	map[string]interface{}{"k": "?x", "j": "?x"},
+	map[string]interface{}{"t": "?t", "k": "?y"},
+	map[string]interface{}{"k": map[string]interface{}{"k": "?x"}, "j": "?"},
+	"?any",
+}
+
+func pickMsg(kind string) interface{} {
+	if strings.HasPrefix(kind, "total") && p(0.12) {
+		return pick(hostile)
+	}
+	return pick(msgs)
+}
+
 type bias struct {
-	fail, perm, emit, bad, loop, native, nilbs, guard, typed, exotic float64
+	fail, perm, emit, bad, loop, native, nilbs, guard, typed, exotic, hostile float64
 }
 
 func p(x float64) bool { return rng.Float64() < x }
@@ -207,6 +224,13 @@ func genBs(b bias) match.Bindings {
 	}
 	if p(b.perm) {
 		bs["p!"] = pick(vals)
+	}
+	if p(b.hostile) {
+		// a variable bound to a string that looks like a variable (taken from a message, say), possibly its own name
+		bs["?x"] = pickS([]string{"?x", "?t", "?y"})
+		if p(0.5) {
+			bs["?t"] = "?x"
+		}
 	}
 	if p(b.typed) {
 		// values as a Go host might build them natively: typed containers, and nothing generic beside them
@@ -489,7 +513,7 @@ func genStep(id int, kind string, b bias) O {
 		in.node = "ghost"
 	}
 	if p(0.7) {
-		in.pending = pick(msgs)
+		in.pending = pickMsg(kind)
 	}
 	if p(0.3) {
 		in.props = genProps()
@@ -666,7 +690,7 @@ func genWalk(id int, kind string, b bias) O {
 	a := genSpec(b, 2+rng.Intn(2), false)
 	in := walkIn{a: a, node: "n0", bs: genBs(b), nilCtl: p(0.04)}
 	for i, n := 0, rng.Intn(5); i < n; i++ {
-		in.msgs = append(in.msgs, pick(msgs))
+		in.msgs = append(in.msgs, pickMsg(kind))
 	}
 	in.limit = []int{0, 1, 2, 3, 5, 8, 30, 30, 30}[rng.Intn(9)]
 	if in.nilCtl {
@@ -851,7 +875,7 @@ func max(a, b int) int {
 var biases = map[string]bias{
 	"step":   {fail: 0.25, perm: 0.15, emit: 0, bad: 0.03, loop: 0.0, native: 0.3, nilbs: 0.06, guard: 0.35},
 	"frame":  {fail: 0.5, perm: 0.15, emit: 0, bad: 0.05, loop: 0.0, native: 0.3, nilbs: 0, guard: 0.4, typed: 0.2},
-	"total":  {fail: 0.6, perm: 0.4, emit: 0, bad: 0.1, loop: 0.03, native: 0.4, nilbs: 0.15, guard: 0.5},
+	"total":  {fail: 0.6, perm: 0.4, emit: 0, bad: 0.1, loop: 0.03, native: 0.4, nilbs: 0.15, guard: 0.5, hostile: 0.06},
 	"exotic": {fail: 0.3, perm: 0.2, emit: 0, bad: 0.0, loop: 0.0, native: 0.2, nilbs: 0.05, guard: 0.5, exotic: 0.5},
 	"emit":   {fail: 0.6, perm: 0.05, emit: 0.2, bad: 0.02, loop: 0.02, native: 0.0, nilbs: 0, guard: 0.4},
 	"perm":   {fail: 0.4, perm: 0.8, emit: 0, bad: 0.0, loop: 0.0, native: 0.5, nilbs: 0, guard: 0.5},
